@@ -118,7 +118,10 @@ def make_network(net):
     G.graph["name"] = "case-network"
     for i, jd in enumerate(net["jds"]):
         G.add_node(i, **{})
-        G.nodes[i][NetworkNames.JOINT_DEGREE] = tuple(jd)
+        # annotations are tuples for generator-made networks, but a caller may legitimately store lists:
+        # half of the case networks carry LIST-valued joint degrees (shared by reference through G.copy())
+        as_list = (len(net["edges"]) + len(net["jds"])) % 2 == 1
+        G.nodes[i][NetworkNames.JOINT_DEGREE] = list(jd) if as_list else tuple(jd)
         G.nodes[i]["label"] = f"v{i}"          # data the code must leave alone
     for k, (a, b, t, m) in enumerate(net["edges"]):
         G.add_edge(a, b)
@@ -497,6 +500,21 @@ def _one_call(mc, N, names, rec, votes):
     return obs, Gout
 
 
+def relabel_net(net, perm):
+    """the same network with vertex v renamed perm[v] (joint degrees move with their vertices)"""
+    jds = [None] * len(net["jds"])
+    for v, jd in enumerate(net["jds"]):
+        jds[perm[v]] = list(jd)
+    edges = [[perm[a], perm[b], t, m] for a, b, t, m in net["edges"]]
+    return {"jds": jds, "edges": edges, "names": list(net["names"])}
+
+
+def second_net(case_net, second):
+    if second and second.get("swapnet_perm"):
+        return relabel_net(case_net, second["swapnet_perm"])
+    return case_net
+
+
 def run_rewire(net, tg, slimit, climit, choices, randoms, every_draw=True, adaptive=None, second=None):
     """the observation of a scripted rewire() run on the real code.  second = {"choices", "randoms", "relink"}:
     rewire() is called a SECOND time on the same object (after the caller, if relink, made the returned
@@ -520,7 +538,11 @@ def run_rewire(net, tg, slimit, climit, choices, randoms, every_draw=True, adapt
     obs, Gout = _one_call(mc, N, names, rec, votes)
     obs["limits"] = limits
     if second is not None and obs["status"][0] in (0, 1, 3):
-        if second.get("relink") and Gout is not None:
+        if second.get("swapnet_perm"):
+            # the caller hands the SAME rewiring object another network through the public setter
+            N = make_network(relabel_net(net, second["swapnet_perm"]))
+            mc.network = N
+        elif second.get("relink") and Gout is not None:
             N.G = Gout            # the caller adopts the rewired graph and rewires again
         rec2 = Recorder(second["choices"], second["randoms"], names, every_draw)
         obs2, _ = _one_call(mc, N, names, rec2, votes)
@@ -697,7 +719,7 @@ def model_calls(case, obs, run_entry="c11_run"):
             es2 = [byp[(min(a, b), max(a, b))] for a, b in o2["order"] if (min(a, b), max(a, b)) in byp]
             if len(es2) != len(o2["input"][1]):
                 es2 = o2["input"][1]
-            calls.append((run_entry, [net["jds"], es2, wire_target(case["tg"]), _opt(case["slimit"]),
+            calls.append((run_entry, [second_net(net, case.get("second"))["jds"], es2, wire_target(case["tg"]), _opt(case["slimit"]),
                                       _opt(case["climit"]), o2["events"], obs_variant(obs) or 0]))
         return calls
     if is_exc(obs):
@@ -812,7 +834,8 @@ def _compare_one(case, obs, mobs, tag):
             d1 = [e for e in g[1] if e not in mes]
             d2 = [e for e in mes if e not in g[1]]
             return f"{tag}graph after change {i}: impl-only edges {d1[:6]} model-only edges {d2[:6]}"
-        if g[0] != [list(j) for j in case["net"]["jds"]]:
+        jds_here = (second_net(case["net"], case.get("second")) if tag.startswith("second") else case["net"])["jds"]
+        if g[0] != [list(j) for j in jds_here]:
             return f"{tag}graph after change {i}: node annotations differ"
         if dsl is not None and [enc_key(n, a, b) for a, b in dsl] != mds:
             return f"{tag}draw set after change {i}: impl {dsl[:8]}.. model {mds[:8]}.."
@@ -889,6 +912,11 @@ def gen_run(rng, drop, zero, big=False):
         # a history on ONE object: rewire() is called again, on the unchanged network or on the rewired one
         ch2, ra2 = rand_scripts(rng, rng.choice([40, 150]), rng.choice([3, 20]))
         case["second"] = {"choices": ch2, "randoms": ra2, "relink": rng.random() < 0.6}
+        if rng.random() < 0.5:
+            perm = list(range(len(net["jds"])))
+            rng.shuffle(perm)
+            case["second"]["swapnet_perm"] = perm
+            case["second"]["relink"] = False
     return case
 
 
